@@ -102,10 +102,18 @@ def read_attrs(src, i):
 def parse_serde_args(attrs):
     """-> dict of serde(...) arguments, plus flags skip_none / serde_as / as=..."""
     d = {}
+    seen_derive = False
     for a in attrs:
         a1 = " ".join(a.split())
+        if a1.startswith("derive("):
+            seen_derive = True
         if a1.startswith("serde_with::skip_serializing_none"):
-            d["skip_none"] = True
+            # the attribute macro rewrites the fields for the derives that come AFTER it; placed after
+            # `#[derive(Serialize)]` it has no effect on the generated impl (None is written as null)
+            if not seen_derive:
+                d["skip_none"] = True
+            else:
+                d["skip_none_ineffective"] = True
         elif a1.startswith("serde_with::serde_as"):
             d["serde_as_container"] = True
         elif a1.startswith("serde_as("):
@@ -164,7 +172,7 @@ def rename_field(name, rule):
     raise Uncovered(f"rename_all = {rule}")
 
 
-CONTAINER_OK = {"rename_all", "tag", "content", "untagged", "transparent", "default", "skip_none", "serde_as_container"}
+CONTAINER_OK = {"rename_all", "tag", "content", "untagged", "transparent", "default", "skip_none", "skip_none_ineffective", "serde_as_container"}
 FIELD_OK = {"rename", "default", "skip_serializing_if", "flatten", "as", "serialize_always"}
 VARIANT_OK = {"rename", "untagged"}
 
@@ -179,7 +187,8 @@ MANUAL = {
     ("quic", "CryptoError"): ([r'write!\(f, "crypto_error_0x1\{:02x\}", self\.0\)',
                                r'impl Serialize for CryptoError \{.*?serializer\.serialize_str\(&self\.to_string\(\)\)',
                                r'let string = String::deserialize\(deserializer\)\?;\s*string\.strip_prefix\("crypto_error_0x1"\)\.map_or_else\('],
-                              {"k": "str", "gen": "crypto_error"}, "the string crypto_error_0x1XX (a sub-language of the strings)"),
+                              {"k": "unitEnum", "names": ["crypto_error_0x1%02x" % i for i in range(256)]},
+                              "exactly the 256 strings crypto_error_0x1XX that Display prints (the hand-written Deserialize also accepts upper-case / 1-digit / '+' forms of the same numbers)"),
 }
 
 
@@ -657,4 +666,17 @@ def generate(g):
     os.makedirs(os.path.join(ROOT, ".build"), exist_ok=True)
     with open(os.path.join(ROOT, ".build", "c20_schema.json"), "w") as f:
         json.dump(side, f, indent=1)
+    # dispatch table for harness20 (type name -> monomorphic probe); rewritten only when it changes
+    rs = ["// GENERATED by xlate/gen_qevent.py from qevent/src/** (covered derived types).  Do not edit.",
+          "pub fn probe(name: &str, json: &str) -> Option<super::Probe> {", "    Some(match name {"]
+    for k in order:
+        if k in MANUAL and k not in bykey:
+            pass
+        path = "qevent::" + (k[0] + "::" if k[0] else "") + k[1]
+        rs.append(f'        "{key_name(k)}" => super::probe::<{path}>(json),')
+    rs += ["        _ => return None,", "    })", "}", ""]
+    from xlate import write_if_changed
+    hdir = os.path.join(ROOT, "harness20", "src")
+    if os.path.isdir(hdir):
+        write_if_changed(os.path.join(hdir, "c20types.rs"), "\n".join(rs))
     return "\n".join(lines)
